@@ -58,6 +58,18 @@ def make_case(seed, index, tier):
                         'early': rng.choice([None, None, None, 0, 0.375, 1, max(period, 0) + 1]),
                         # after that many ticks the iterator is handed to a child activity
                         'handover': rng.choice([None, None, None, 1, 2])})
+    if rng.random() < 0.08:
+        # an exact integer clock beyond float precision (e.g. nanosecond time stamps): integer
+        # periods, body durations, offsets and deadlines only - the grid stays exact
+        for ticker in tickers:
+            period = ticker['period'] = rng.choice([0, 1, 5, 1000])
+            ticker['durations'] = [rng.choice([0, period, max(period - 1, 0), period + 1,
+                                               period // 2]) for _ in ticker['durations']]
+            ticker['offset'] = rng.choice([0, 1])
+            ticker['deadline'] = rng.choice([None, None, 7, 3000])
+            ticker['early'] = rng.choice([None, None, 0, 1, period + 1])
+        return {'seed': seed, 'index': index, 'tier': tier, 'tickers': tickers,
+                'start': rng.choice([2 ** 60, 2 ** 53 + 1, 1700000000 * 10 ** 9])}
     return {'seed': seed, 'index': index, 'tier': tier, 'start': rng.choice([0, 0, 0.375, 1e6, 1e10, 2.0 ** 45]),
             'tickers': tickers}
 
